@@ -116,7 +116,7 @@ func thoroughExtras(c *Ctx, pd *propDef, repo, verif string) {
 		Failing []string `json:"failing_keys,omitempty"`
 	}
 	var vres []variantRes
-	for _, v := range [][2]string{{"darwin", "amd64"}, {"linux", "386"}} {
+	for _, v := range [][2]string{{"darwin", "amd64"}, {"linux", "arm64"}} {
 		r := runChild(pd.id, repo, verif, "-goos", v[0], "-goarch", v[1])
 		vr := variantRes{Variant: v[0] + "/" + v[1]}
 		switch {
